@@ -65,6 +65,31 @@ def _visitor():
 
 
 @driver
+def visit_constant_kinds(args):
+    "literals of every kind keep their value and kind: int -> int, float -> double (also integral floats), bool -> bool, str -> string"
+    import ast
+    cases = [(1, "1", "int"), (0, "0", "int"), (-5, "-5", "int"), (2.0, "2.0", "double"), (2.5, "2.5", "double"), (1e16, "1e+16", "double"),
+             (3000000000.0, "3000000000.0", "double"), (True, "true", "bool"), (False, "false", "bool"), ("ab", '"ab"', "string")]
+    for value, text, kind in cases:
+        v = _visitor()
+        node = ast.Constant(value=value)
+        try:
+            v.visit_Constant(node)
+        except Exception as e:  # noqa
+            return True, "ast.Constant(%r) is refused: %s" % (value, e)
+        if node.rep.as_cpp() != text or node.rep.cpp_type().type != kind:
+            return True, "ast.Constant(%r) is rendered as `%s` of C++ kind %s, expected `%s` of kind %s" % (value, node.rep.as_cpp(), node.rep.cpp_type().type, text, kind)
+    for value in (None, 1j, b"x"):
+        v = _visitor()
+        try:
+            v.visit_Constant(ast.Constant(value=value))
+            return True, "ast.Constant(%r) is accepted, expected ValueError" % (value,)
+        except ValueError:
+            pass
+    return False, "ok"
+
+
+@driver
 def visit_constant(args):
     """args: {"value": python literal as repr string, "expect": "int32"|"string_ok"|"finite"}"""
     import ast
